@@ -17,11 +17,12 @@ RULE = ('tier 1: for each program (3-8 operations covering every mutating method
         'before or after the interrupted operation (bulk removals and documented multi-step methods: any state '
         'observed after one of their commits in a dry run), every key yields its complete value, check() reports only '
         'unknown files / empty directories, integrity ok, a write succeeds, check(fix=True) then check() is clean. '
-        'tier 2: strace injects SIGKILL at the n-th file-mutating syscall inside SQLite. tier 3: SIGKILL from outside at '
+        'tier 1b: the same at every gate of opening (creating or re-opening) a Cache / Deque / Index / FanoutCache '
+        'directory that was absent, empty or populated, followed by one file-backed write. tier 2: strace injects SIGKILL at the n-th file-mutating syscall inside SQLite. tier 3: SIGKILL from outside at '
         'random instants into a 2-thread child. evaluations = kill runs judged; distinct_nontrivial = distinct '
         '(program, kill gate) pairs + distinct (syscall, n) kills')
 DISTINCT = ('kill_points', 'syscall_kills', 'random_kills')
-REQUIRED = ('gate_kills_judged', 'programs_fully_enumerated', 'kills_inside_block', 'kills_at_file_ops',
+REQUIRED = ('gate_kills_judged', 'kills_during_open', 'kills_during_first_write', 'programs_fully_enumerated', 'kills_inside_block', 'kills_at_file_ops',
             'kills_at_sql_gates', 'debris_seen_unknown_files_or_dirs', 'syscall_kills_judged', 'random_kills_judged')
 ASSUMPTIONS = ('SIGKILL is process death, not power loss (page cache survives); durability against power failure is not '
                'examined', 'sequential semantics of each operation are taken from a dry run of the same program '
@@ -329,6 +330,166 @@ def enumerate_program(dc, sc, res, prog_id, spec, label, stride=1, offset=0):
     sc.drop(init)
 
 
+
+# ------------------------------------------- tier 1b: kills while a directory is being opened
+OPEN_KINDS = ('cache', 'deque', 'index', 'fanout')
+
+
+def open_object(dc, d, kind):
+    if kind == 'fanout':
+        return dc.FanoutCache(d, shards=2, disk_min_file_size=T)
+    if kind == 'deque':
+        return dc.Deque(directory=d)
+    if kind == 'index':
+        return dc.Index(d)
+    return dc.Cache(d, **SETTINGS)
+
+
+def first_write(obj, kind):
+    big = 'first-write;' * 4000
+    if kind == 'deque':
+        obj.append(big)
+    else:
+        obj['first'] = big
+
+
+def open_child(dc, d, kind, kill_at, logpath):
+    code = 0
+    try:
+        fd = os.open(logpath, os.O_WRONLY | os.O_CREAT | os.O_APPEND, 0o644)
+        probe.watch(d)
+        ctrl = crash.KillAt(kill_at)
+        probe.set_controller(ctrl)
+        obj = open_object(dc, d, kind)
+        os.write(fd, (json.dumps({'opened': ctrl.n}) + '\n').encode())
+        first_write(obj, kind)
+        probe.set_controller(None)
+        os.write(fd, (json.dumps({'finished': True, 'gates': ctrl.n,
+                                  'labels': ctrl.labels if kill_at is None else None}) + '\n').encode())
+    except BaseException:      # noqa: BLE001
+        import traceback
+        try:
+            os.write(2, traceback.format_exc().encode())
+        except OSError:
+            pass
+        code = 3
+    os._exit(code)
+
+
+def fanout_contents(dc, d):
+    fc = dc.FanoutCache(d, shards=2, disk_min_file_size=T)
+    try:
+        return sorted(('%r' % (k,), '%r' % (fc.get(k, '<MISSING>'),)) for k in fc)
+    finally:
+        fc.close()
+
+
+def judge_fanout(dc, res, d, acceptable, wit):
+    try:
+        with warnings.catch_warnings():
+            warnings.simplefilter('ignore')
+            got = fanout_contents(dc, d)
+    except Exception as exc:       # noqa: BLE001
+        res.violation('after the kill the contents cannot be read: %s: %s' % (type(exc).__name__, exc), wit)
+        return
+    if got not in acceptable:
+        res.violation('after the kill the contents are neither the state before nor after the interrupted operation',
+                      dict(wit, got=got[:6]))
+        return
+    fc = dc.FanoutCache(d, shards=2, disk_min_file_size=T, timeout=5)
+    try:
+        if len(fc) != len(list(fc)):
+            res.violation('after the kill len() is %d but %d keys are present' % (len(fc), len(list(fc))), wit)
+            return
+        bad = [str(w.message) for w in fc.check()
+               if not issubclass(w.category, (dc.UnknownFileWarning, dc.EmptyDirWarning))]
+        if bad:
+            res.violation('check() after the kill reports more than debris: %r' % bad[:3], wit)
+            return
+        for i in range(6):
+            if not fc.set('post-crash-%d' % i, i, retry=True) or fc.get('post-crash-%d' % i) != i:
+                res.violation('a write after the kill failed', wit)
+                return
+    finally:
+        fc.close()
+
+
+def open_kill_tier(dc, sc, res, kind, initial, label, stride=1, offset=0):
+    """SIGKILL at every gate of: open (create or re-open) the directory, then one file-backed write."""
+    init = sc.new('oinit')
+    if initial == 'empty':
+        os.makedirs(init)
+    elif initial == 'populated':
+        obj = open_object(dc, init, kind)
+        for i in range(3):
+            if kind == 'deque':
+                obj.append('old-%d;' % i * (1 + 6000 * (i % 2)))
+            else:
+                obj['old-%d' % i] = 'old-%d;' % i * (1 + 6000 * (i % 2))
+        (obj.cache if kind in ('deque', 'index') else obj).close()
+
+    def snapshot(path):
+        if kind == 'fanout':
+            return fanout_contents(dc, path)
+        return crash.contents(dc, path, kind)
+
+    def clone():
+        d = sc.new('ok')
+        if initial != 'absent':
+            crash.copy_dir(init, d)
+        return d
+
+    probe_dir = clone()
+    s0 = snapshot(probe_dir)             # what an untouched copy shows (opening an absent directory creates it)
+    sc.drop(probe_dir)
+    dry = clone()
+    how, status, recs = crash.fork_call(lambda: open_child(dc, dry, kind, None, dry + '.log'), dry + '.log')
+    fin = [r for r in recs if r.get('finished')]
+    if os.path.exists(dry + '.log'):
+        os.unlink(dry + '.log')
+    if how != 'exited' or not fin:
+        res.inconclusive.append('%s: dry run of the open program did not finish (%s)' % (label, how))
+        sc.drop(dry)
+        return
+    s1 = snapshot(dry)
+    sc.drop(dry)
+    G = fin[0]['gates']
+    labels = fin[0]['labels'] or []
+    opened_at = [r['opened'] for r in recs if 'opened' in r][0]
+    for k in range(1 + offset, G + 1, stride):
+        d = clone()
+        log = d + '.log'
+        how, status, recs = crash.fork_call(lambda: open_child(dc, d, kind, k, log), log)
+        if os.path.exists(log):
+            os.unlink(log)
+        if how == 'exited' and any(r.get('finished') for r in recs):
+            res.count('kill_points_beyond_end_of_run')
+            sc.drop(d)
+            continue
+        if how != 'killed':
+            res.inconclusive.append('%s: child at gate %d ended as %s' % (label, k, how))
+            sc.drop(d)
+            continue
+        opened = any('opened' in r for r in recs)
+        gate_label = labels[k - 1] if k - 1 < len(labels) else '?'
+        wit = {'label': label, 'tier': 'open-kill', 'kind': kind, 'directory_before': initial, 'kill_gate': k,
+               'gate_label': gate_label, 'gates_in_open': opened_at, 'killed_during': 'first write' if opened else 'open'}
+        acceptable = [s0, s1] if opened else [s0]
+        if kind == 'fanout':
+            judge_fanout(dc, res, d, acceptable, wit)
+        else:
+            judge(dc, res, d, kind, None, acceptable, label, wit)
+        res.count('evaluations')
+        res.count('gate_kills_judged')
+        res.count('kills_during_open' if not opened else 'kills_during_first_write')
+        res.seen('kill_points', ('open', kind, initial, k))
+        sc.drop(d)
+        if res.counters.get('violations_raw', 0) > 12:
+            break
+    if initial != 'absent':
+        sc.drop(init)
+
+
 # --------------------------------------------------------------- tier 2: strace
 SYSCALLS = ['pwrite64', 'fdatasync', 'fsync', 'ftruncate', 'unlink', 'rmdir', 'mkdir', 'rename', 'openat', 'pwritev']
 
@@ -534,6 +695,13 @@ def run_shard(tier, seed, shard, nshards, res):
             spec = random_program(rng)
             enumerate_program(dc, sc, res, 'rand-%d-%d-%d' % (seed, shard, i), spec,
                               'c07 random program seed=%d shard=%d i=%d' % (seed, shard, i))
+            if res.counters.get('violations_raw', 0) > 12:
+                return
+        # tier 1b: kills while the directory is being created / re-opened, one variant per shard
+        variants = [(k, ini) for ini in ('absent', 'populated', 'empty') for k in OPEN_KINDS]
+        for v in range(shard, len(variants) * (1 if tier == 'quick' else 2), nshards):
+            kind, initial = variants[v % len(variants)]
+            open_kill_tier(dc, sc, res, kind, initial, 'c07 open-kill kind=%s directory=%s' % (kind, initial))
             if res.counters.get('violations_raw', 0) > 12:
                 return
         # tier 2: kills inside SQLite via strace syscall injection
